@@ -136,3 +136,7 @@ def fill(ENV):
     from . import bitmodel
     ENV['bitstring'] = bitmodel.bitstring_env
     ENV['crccheck.crc'] = bitmodel.crc_env
+    from . import codecmodel
+    ENV['binascii'] = codecmodel.binascii_env
+    ENV['base64'] = codecmodel.base64_env
+    ENV['decimal'] = codecmodel.decimal_env
